@@ -96,6 +96,8 @@ func (i *Interpreter) restart() error {
 	}
 	i.ctx.Restarts++
 	i.Debugger.Message(fmt.Sprintf("Restarted (%d) time", i.ctx.Restarts))
+	// The lookup is done again, the cached flag reports the branch which is taken after the restart
+	i.process.Cached = false
 	i.ctx.BackendRequest = nil
 	i.ctx.BackendResponse = nil
 	i.ctx.Object = nil
@@ -632,7 +634,9 @@ func (i *Interpreter) ProcessFetch() error {
 		}
 	}
 
-	if !i.passed {
+	// The response is stored when vcl_fetch delivers it: return(pass) makes the object hit-for-pass,
+	// error and restart discard it, so these must not be found as a cache hit by the next lookup
+	if !i.passed && (state == DELIVER || state == DELIVER_STALE) {
 		i.updateCache()
 	}
 	switch state {
